@@ -723,10 +723,12 @@ inductive Op
   | commit (id : Nat) (mts : Nat)
   | discard (id : Nat)
   | iter (id : Nat) (o : IterOpts) (seek : Option Bytes)
-  | flush
+  | flush (id : Nat)
   | setNow (t : Nat)
   | setDiscard (ts : Nat)
   | compact (cd : CompactDef)
+  | dropPrefix (n : Nat)   -- `DropPrefix` of `n` prefixes: one read-only `View` each
+  | dropAll
 
 /-- the reads an iteration records (`Seek(key)` and every `Item()`), as in `mvccStep` -/
 def iterReads (seek : Option Bytes) (items : List Ent) : List Bytes :=
@@ -743,13 +745,21 @@ def Db.step (d : Db) : Op → Db
     | some items, some t =>
       if t.update then d.setTxn { t with reads := iterReads seek items ++ t.reads } else d
     | _, _ => d
-  | .flush => { d with lsm := d.lsm.flush }
+  | .flush id => { d with lsm := d.lsm.flush id }
   | .setNow t => { d with now := t }
   | .setDiscard ts => ({ d with discardTs := ts } : Db).cleanup
   | .compact cd =>
     match d.lsm.compact cd d.discardAtOrBelow d.opts.numKeep d.now with
     | some l => { d with lsm := l }
     | none => d
+  | .dropPrefix n =>
+    (List.replicate n ()).foldl (fun (d : Db) _ =>
+      if d.opts.managed then d else
+      let rts := d.nextTs - 1
+      { d with readMark := (d.readMark.begin rts).done rts }) d
+  | .dropAll =>
+    let o := if d.opts.inMemory then { d.opts with threshold := 2147483647 } else d.opts
+    { d with lsm := Lsm.init d.opts.maxLevels, opts := o }
 
 def Db.run (d : Db) (ops : List Op) : Db := ops.foldl Db.step d
 
@@ -826,22 +836,50 @@ theorem commit_nextTs_ge (d : Db) (id mts : Nat) : d.nextTs ≤ (d.commit id mts
       rcases commit_stops mts h hg with h' | ⟨s, h'⟩ | h' <;> rw [h'] <;> simp
     | true => rw [(commit_goes mts h hg).2.2.1]; split <;> omega
 
-theorem step_opts (d : Db) (op : Op) : (d.step op).opts = d.opts := by
+/-- one `View` of `DropPrefix` touches only the read mark -/
+theorem dropPrefix_fields (d : Db) (n : Nat) :
+    (d.step (.dropPrefix n)).opts = d.opts ∧ (d.step (.dropPrefix n)).nextTs = d.nextTs ∧
+    (d.step (.dropPrefix n)).lsm = d.lsm ∧ (d.step (.dropPrefix n)).now = d.now ∧
+    (d.step (.dropPrefix n)).txns = d.txns ∧ (d.step (.dropPrefix n)).committed = d.committed ∧
+    (d.step (.dropPrefix n)).discardTs = d.discardTs ∧
+    (d.step (.dropPrefix n)).lastCleanupTs = d.lastCleanupTs := by
+  simp only [Db.step]
+  induction n generalizing d with
+  | zero => exact ⟨rfl, rfl, rfl, rfl, rfl, rfl, rfl, rfl⟩
+  | succ n ih =>
+    rw [List.replicate_succ, List.foldl_cons]
+    split
+    · exact ih d
+    · obtain ⟨h1, h2, h3, h4, h5, h6, h7, h8⟩ :=
+        ih { d with readMark := (d.readMark.begin (d.nextTs - 1)).done (d.nextTs - 1) }
+      exact ⟨h1, h2, h3, h4, h5, h6, h7, h8⟩
+
+/-- no operation switches between managed and normal mode, or between in-memory and on-disk -/
+theorem step_opts (d : Db) (op : Op) :
+    (d.step op).opts.managed = d.opts.managed ∧ (d.step op).opts.inMemory = d.opts.inMemory := by
+  have h : ∀ d' : Db, d'.opts = d.opts →
+      d'.opts.managed = d.opts.managed ∧ d'.opts.inMemory = d.opts.inMemory := by
+    intro d' h; rw [h]; exact ⟨rfl, rfl⟩
   cases op with
-  | begin id u m => exact begin_opts ..
-  | set id e => exact modify_opts ..
-  | get id k => exact txnGet_opts ..
-  | commit id m => exact commit_opts ..
-  | discard id => exact discardTxn_opts ..
+  | begin id u m => exact h _ (begin_opts ..)
+  | set id e => exact h _ (modify_opts ..)
+  | get id k => exact h _ (txnGet_opts ..)
+  | commit id m => exact h _ (commit_opts ..)
+  | discard id => exact h _ (discardTxn_opts ..)
   | iter id o seek =>
+    apply h
     simp only [Db.step]
     split
     · split <;> rfl
     · rfl
-  | flush => rfl
-  | setNow t => rfl
-  | setDiscard ts => simp [Db.step]
-  | compact cd => simp only [Db.step]; split <;> rfl
+  | flush id => exact h _ rfl
+  | setNow t => exact h _ rfl
+  | setDiscard ts => exact h _ (by simp [Db.step])
+  | compact cd => apply h; simp only [Db.step]; split <;> rfl
+  | dropPrefix n => exact h _ (dropPrefix_fields d n).1
+  | dropAll =>
+    simp only [Db.step]
+    split <;> exact ⟨rfl, rfl⟩
 
 theorem step_nextTs_ge (d : Db) (op : Op) : d.nextTs ≤ (d.step op).nextTs := by
   cases op with
@@ -855,15 +893,22 @@ theorem step_nextTs_ge (d : Db) (op : Op) : d.nextTs ≤ (d.step op).nextTs := b
     split
     · split <;> exact Nat.le_refl _
     · exact Nat.le_refl _
-  | flush => exact Nat.le_refl _
+  | flush id => exact Nat.le_refl _
   | setNow t => exact Nat.le_refl _
   | setDiscard ts => simp [Db.step]
   | compact cd => simp only [Db.step]; split <;> exact Nat.le_refl _
+  | dropPrefix n => exact Nat.le_of_eq (dropPrefix_fields d n).2.1.symm
+  | dropAll => exact Nat.le_refl _
 
-theorem run_opts (d : Db) (ops : List Op) : (d.run ops).opts = d.opts := by
+theorem run_opts (d : Db) (ops : List Op) :
+    (d.run ops).opts.managed = d.opts.managed ∧ (d.run ops).opts.inMemory = d.opts.inMemory := by
   induction ops generalizing d with
-  | nil => rfl
-  | cons op ops ih => simp only [Db.run, List.foldl_cons] at ih ⊢; rw [ih, step_opts]
+  | nil => exact ⟨rfl, rfl⟩
+  | cons op ops ih =>
+    simp only [Db.run, List.foldl_cons] at ih ⊢
+    obtain ⟨h1, h2⟩ := ih (d.step op)
+    obtain ⟨g1, g2⟩ := step_opts d op
+    exact ⟨h1.trans g1, h2.trans g2⟩
 
 theorem run_nextTs_ge (d : Db) (ops : List Op) : d.nextTs ≤ (d.run ops).nextTs := by
   induction ops generalizing d with
